@@ -87,6 +87,15 @@ type CodedErr interface {
 
 func (*TB) MA() {}
 
+// EI and ES implement error with value receivers and can never be nil.
+type EI int
+
+func (e EI) Error() string { return "ei" }
+
+type ES struct{ X int }
+
+func (e ES) Error() string { return "es" }
+
 // NS is a named slice with a method: it implements IA-like interface INS.
 type NS []*TA
 
